@@ -46,10 +46,11 @@ class Frame:
 
 
 class Raised:
-    __slots__ = ("guard", "etype", "msg", "where")
+    __slots__ = ("guard", "etype", "msg", "where", "native")
 
-    def __init__(self, guard, etype, msg, where):
+    def __init__(self, guard, etype, msg, where, native=False):
         self.guard, self.etype, self.msg, self.where = guard, etype, msg, where
+        self.native = native        # True: a Python exception escaped from a concrete operation inside the interpreter (program error OR modelling gap)
 
 
 def _is_repo_function(fn):
@@ -290,6 +291,7 @@ class Interp:
                 raise
             if self.feasible(g):
                 self.do_raise(g, type(e).__name__, str(e), fr, st)
+                self.raised[-1].native = True
                 return Flow(normal=False, exc=True)
             return Flow(normal=False)
         # exceptions raised by callees / index errors while evaluating this statement's expressions
@@ -845,6 +847,12 @@ class Interp:
         v = self.eval(node, fr, g)
         if isinstance(v, GList):
             return [self._idx_plain(x) for x in v.plain()]
+        if isinstance(v, np.ndarray) and v.dtype == object and v.size and all(type(x) in (int, bool, np.bool_) or isinstance(x, np.integer) for x in v.reshape(-1)):
+            # an index array that went through the interpreter's object-array representation but holds only concrete integers / booleans:
+            # numpy insists on an integer (boolean) dtype for index arrays
+            flat = list(v.reshape(-1))
+            isb = all(type(x) in (bool, np.bool_) for x in flat)
+            return np.array(flat, dtype=bool if isb else np.intp).reshape(v.shape)
         return v
 
     @staticmethod
